@@ -17,6 +17,8 @@ def check(chk, thorough=False):
     chk.run('C06.c', 'R-FLOW', 'buffer splice and coverage interval use the same bounds: the fragment own offset and offset + len(data)', lambda ob: c06c(tree, ob), floor=3)
     chk.run('C06.h', 'R-ORDER', 'fragments are reassembled before the security steps look at the bundle: reassembly runs strictly before BIB / BCB verification in the receive chain (= C12.a)', lambda ob: __import__('sa.props.c12', fromlist=['c12a']).c12a(tree, ob), floor=4)
     chk.run('C06.i', 'R-FRESH', 'each reassembly starts from an empty bundle: no default argument of the container / application classes builds a shared object', lambda ob: __import__('sa.props.common', fromlist=['fresh_defaults']).fresh_defaults(tree, ob, ['bp/util.py', 'bp/app/fragment.py', 'bp/agent.py', 'bp/encoding/bundle.py', 'bp/encoding/blocks.py']), floor=1)
+    chk.run('C06.j', 'R-TYPE', 'the reassembled payload reaches the rebuilt bundle: the reassembly buffer is a bytearray, and the byte-string field it is stored into keeps a bytes-like value (folded: m2i(bytearray) is its octets, not None)', lambda ob: c06j(tree, ob), floor=2)
+    chk.run('C06.k', 'R-FLOW', 'a reassembled administrative bundle is handled like one that arrived whole: the administrative element reads the record from the payload block data, not from a payload object that only decoding would have attached', lambda ob: c06k(tree, ob), floor=1)
     chk.run('C06.d', 'R-PAIR', 'one re-injection site; the fragment itself is withdrawn from delivery on every path; the synthesized bundle goes through the normal receive path', lambda ob: c06d(tree, ob), floor=3)
     chk.run('C06.f', 'R-ORDER', 'fragments and the re-injected bundle pass the receive gates: CRC gate on the whole failing set, unbounded seen-identity set, add before processing (= C08.b, C10.a)', lambda ob: (_c08b(tree, ob), c10a(tree, ob)), floor=8)
     chk.run('C06.g', 'sibling', 'checking a block CRC leaves the block as it was (blocks of the first fragment are copied into the reassembled bundle after they were checked) (= C08.c)', lambda ob: _c08c(tree, ob), floor=8)
@@ -222,3 +224,40 @@ def c06e(tree, ob):
         ob.site(FRAG, s, 'payload block data = accumulated buffer')
     if not fv.dominates(s, one([x for x in calls_in(fv.func) if call_name(x) == 'glib.idle_add'], 'inject', ob))[0]:
         ob.violate(FRAG, Q, src(s), 'bundle is re-injected before its payload was set', s)
+
+
+
+def c06j(tree, ob):
+    from .. import absint
+    fv = FuncView(tree, FRAG, 'Fragment._reassemble')
+    sets = [c for c in calls_in(fv.func) if isinstance(c.func, ast.Attribute) and c.func.attr == 'setfieldval' and c.args and const_str(c.args[0]) == 'btsd']
+    st = one(sets, "setfieldval('btsd', ...) of the rebuilt bundle", ob)
+    val = src(st.args[1])
+    wrapped = val.startswith('bytes(')
+    ob.site(FRAG, st, 'payload of the rebuilt bundle = {}'.format(val))
+    if wrapped:
+        ob.site(FRAG, st, 'the buffer is converted to bytes before it is stored')
+        return
+    cls = tree.klass('scapy_cbor/fields.py', 'BstrField')
+    m = one([x for x in cls.body if isinstance(x, ast.FunctionDef) and x.name == 'm2i'], 'BstrField.m2i', ob)
+    out = absint.run(m.body, {m.args.args[2].arg: bytearray(b'ab')}, {})
+    if out.kind == 'return' and out.value is not None:
+        ob.site('scapy_cbor/fields.py', m, 'BstrField.m2i keeps a bytearray (as its octets)')
+    else:
+        ob.violate('scapy_cbor/fields.py', 'BstrField.m2i', 'm2i(bytearray(...))', 'the byte-string field turns a bytearray into "no value": the reassembly buffer, which is a bytearray, is stored as None and the '
+                   'reassembled bundle is delivered without its payload', out.node or m)
+
+
+def c06k(tree, ob):
+    ADMIN = 'bp/app/admin.py'
+    fv = FuncView(tree, ADMIN, 'Administrative._recv_bundle')
+    loads = [c for c in calls_in(fv.func) if (call_name(c) or '') in ('cbor2.loads', 'cbor2.load')]
+    from_data = [c for c in loads if "getfieldval('btsd')" in src(fv.value_at(c.args[0], c, depth=3)) or '.btsd' in src(fv.value_at(c.args[0], c, depth=3))]
+    uses_payload = [n for n in walk_local(fv.func) if isinstance(n, ast.Attribute) and n.attr == 'payload' and 'block_num' in src(fv.value_at(n.value, n, depth=2) if isinstance(n.value, ast.Name) else n.value)]
+    if uses_payload:
+        ob.violate(ADMIN, fv.qual, src(uses_payload[0])[:60], 'the administrative element looks at the payload object of the payload block: a bundle rebuilt from fragments was never decoded as a whole, '
+                   'its payload block carries no administrative record object, and the record is refused (the bundle deleted) although it arrived complete', uses_payload[0])
+    elif from_data:
+        ob.site(ADMIN, from_data[0], 'the record is decoded from the payload block data')
+    else:
+        ob.violate(ADMIN, fv.qual, 'cbor2.loads(ctr.block_num(1).getfieldval(\'btsd\'))', 'the administrative record is not decoded from the payload block data', fv.func)
